@@ -51,6 +51,7 @@ CORPORA = {
                  quick=dict(count=1500), thorough=dict(count=40000), profiles=DEV_REL, place="both"),
     "bgen": dict(kind="mutate", gen="builder_cases", base=["builder"], quick=dict(count=600), thorough=dict(count=15000), profiles=DEV_REL, place="end"),
     "hbgen": dict(kind="mutate", gen="hbuilder_cases", base=["hbuilder"], quick=dict(count=1500), thorough=dict(count=20000), profiles=DEV_REL, place="end"),
+    "utf8": dict(model="MC_Utf8", quick=dict(MaxLen=3), thorough=dict(MaxLen=3), profiles=DEV_REL, place="end"),
     "load": dict(model="MC_Load", quick=dict(MaxT=72), thorough=dict(MaxT=160), profiles=DEV_REL, place="both"),
     "walk": dict(model="MC_Walk", quick=dict(MaxT=32), thorough=dict(MaxT=40), profiles=DEV_REL, place="both"),
 }
@@ -61,11 +62,15 @@ PARSE_CORPORA = ["adv", "big", "load", "walk", "fields", "getters", "dst", "size
                  "hload", "hwalk", "hfields", "hgetters", "hdst", "find", "cks", "refslice8", "typeids"]
 
 CHECKS = {
-    "C08": dict(corpora=PARSE_CORPORA, agree=ALL_CFGS,
+    "C08": dict(technique="TLC-generated cases replayed by four builds (dev/release x builder feature on/off); TLC (spec/Trace8.tla) compares every "
+                          "outcome across the builds",
+                corpora=PARSE_CORPORA, agree=ALL_CFGS,
                 rule="every parse-side corpus (boot information and header: loading, walking, getters, fields, iterators, strings, "
                      "find_header, checksum, ref_from_slice, conversions) replayed by four harness builds (dev/release x builder feature "
                      "on/off); every outcome of every call compared across the builds by TLC (spec/Trace8.tla)"),
-    "C20": dict(corpora=["typeids", "fb"],
+    "C20": dict(technique="TLA+ specification (per-value operators + interval tables checked against each other by TLC) + TLC trace validation of "
+                          "boundary cases + native sweep of the 32-bit domain against the tables TLC exports",
+                corpora=["typeids", "fb"],
                 # native sweeps against the interval tables exported by MC_TypeIds: (which, table, quick stride, thorough stride)
                 sweeps=[("tag_type", "tag_type", 251, 1), ("mem_area_type", "mem_area_type", 251, 1), ("elf_type", "elf_type", 4099, 1)],
                 sweep_model="typeids",
@@ -76,7 +81,7 @@ CHECKS = {
                 rule="user-defined family (sized tags with 0..6 extra words; DST tails with element sizes 1,2,3,4,8,24 x fixed parts 8..24) "
                      "x all tag sizes 8..96 through the public get_tag; every built-in kind of both crates viewed at every declared size (variable-length kinds 0..base+3*elem+DstExtra, "
                      "header-tag kinds 0..40) and at its conformant size; non-trivial = casts that return a view"),
-    "C17": dict(thorough_extra=["mut"], corpora=["str", "ctor", "dst"],
+    "C17": dict(thorough_extra=["mut"], corpora=["str", "utf8", "ctor", "dst"],
                 rule="parse: all strings of length <= MaxStr over a 10-byte alphabet (NUL, ASCII, pieces of 2/3/4-byte sequences, invalid bytes) "
                      "x every cut of the declared size x 3 string kinds; build: texts of length 0..MaxContent with and without trailing NUL"),
     "C06": dict(corpora=["builder", "bgen"],
@@ -94,8 +99,10 @@ CHECKS = {
     "C09": dict(corpora=["hwalk", "hdst", "hfields", "hgetters", "hload", "hmut"],
                 rule="all lazily chosen header-tag sequences (4 type/flag pairs, sizes 0..remaining+9), every header-tag kind at every "
                      "declared size 0..40, conformant tags; every call checked for crash/hang and extents inside the declared header"),
-    "C10": dict(corpora=["hload", "cks", "big"],
-                sweeps=[("checksum", None, 1, 1)],
+    "C10": dict(technique="TLA+ specification + TLC model checking + TLC trace validation of replayed cases; checksum law: Apalache on the specification "
+                          "operators (integer and 16-bit-limb form) over the full domain + native sweep of all 2^32 lengths x both architectures",
+                corpora=["hload", "cks", "big"],
+                sweeps=[("checksum", None, 1, 1)], laws=["CkLaw", "LimbLaw"],
                 rule="all (length 0..MaxLen, magic right/one-bit-off/zero, checksum right/+1/-1/zero, both architectures) + null; "
                      "calc_checksum on 54 boundary (magic, arch, length) triples judged on 16-bit limbs; all 2^32 lengths x both architectures "
                      "(Multiboot2 magic; two more magics on a sub-grid) swept natively against the congruence the property states"),
@@ -128,8 +135,10 @@ CHECKS = {
                 rule="cases = all lazily chosen header sequences (type in {0,3,99}, size 0..remaining+9) of regions up to MaxT; "
                      "each drained by a tag iterator, a mid-walk clone and the module iterator; histories: all interleavings of length Depth of "
                      "next/clone on two tag iterators, a clone slot, a module iterator and its clone over 8 representative regions"),
-    "C14": dict(corpora=["refslice", "round8"],
-                sweeps=[("round8", None, 1, 1)],
+    "C14": dict(technique="TLA+ specification + TLC model checking + TLC trace validation of replayed cases; rounding function: Apalache law on the "
+                          "specification operator over the full domain + native 2^32 sweep of the implementation against the stated law",
+                corpora=["refslice", "round8"],
+                sweeps=[("round8", None, 1, 1)], laws=["RoundLaw"],
                 rule="cases = all (header kind, slice length, start alignment, declared size) in bounds; "
                      "non-trivial = distinct cases whose specified outcome is not ShorterThanHeader; rounding function: 250 values around "
                      "multiples of 8 and powers of two judged by TLC, all 2^32 arguments swept natively against the law the property states"),
